@@ -223,6 +223,11 @@ var ops = []op{
 	{"CreateTopics", 19, []string{"topic"}, func(e *env, c *kafka.Conn) (string, error) {
 		return "", c.CreateTopics(kafka.TopicConfig{Topic: "created", NumPartitions: 2, ReplicationFactor: 1})
 	}},
+	{"CreateTopics3", 19, []string{"topic", "first-topic"}, func(e *env, c *kafka.Conn) (string, error) {
+		// several topics in one request; "first-topic": only the first of them is refused, entries follow the failed one
+		return "", c.CreateTopics(kafka.TopicConfig{Topic: "created-a", NumPartitions: 1, ReplicationFactor: 1}, kafka.TopicConfig{Topic: "created-b", NumPartitions: 2, ReplicationFactor: 1},
+			kafka.TopicConfig{Topic: "created-c", NumPartitions: 1, ReplicationFactor: 1})
+	}},
 	{"DeleteTopics", 20, []string{"topic"}, func(e *env, c *kafka.Conn) (string, error) {
 		return "", c.DeleteTopics("nonexistent-or-not")
 	}},
@@ -339,6 +344,9 @@ func runTuple(tb ev.TB, t tuple) (delivered bool, firstClass string) {
 	switch t.Fault {
 	case "":
 		act.ErrorCode, act.ErrorField = t.Code, t.Field
+		if t.Field == "first-topic" {
+			act.ErrorField, act.ErrorFirstOnly = "topic", true
+		}
 	case "cut":
 		act.CutResponse, act.CutResponseAt = true, t.CutAt
 	case "drop":
